@@ -6,7 +6,7 @@ driver predicts, from the fault class of every attempt, the engine-call trace (c
 class, the number of attempts and the cache/lease state.  Property monitors look at the implementation's output only.
 """
 import os, json, re
-from vlib.core import Ctx, hexs, unhex, ddmin, ModelBuildError, load_known_findings
+from vlib.core import Ctx, hexs, unhex, ddmin, ModelBuildError
 
 ID = "C17"
 MODULES = ["IoraModel.Props.C17"]
@@ -51,12 +51,24 @@ OBLIGATIONS = [
      "statement": "a finished non-idempotent caller: <= budget+1 attempts, all but the last not sent, at most one reached sendSync"},
     {"id": "C17_R4f", "theorem": "Iora.C17.R4_no_deadlock", "kind": "proved",
      "statement": "concurrent callers, every schedule: while a caller is unfinished some thread can make a working step (lease never strands callers)"},
+    {"id": "C17_R4k", "theorem": "Iora.C17.R4_other_mode_not_reused", "kind": "proved",
+     "statement": "a cached connection of the other TLS mode (FC07a) or an idle one is closed and evicted, never handed out; a new one is opened in the request's mode"},
+    {"id": "C17_P1", "theorem": "Iora.C17.P1_entry_table", "kind": "proved",
+     "statement": "the public entry points (every function with an `int retries` parameter) and the method each hands to performRequest, directly or by delegation; no duplicate rows (translator: one request-issuing call per body, no try/catch, not in a loop, budget = the caller's `retries`)"},
+    {"id": "C17_P2", "theorem": "Iora.C17.P2_public_is_one_performRequest", "kind": "proved",
+     "statement": "a public call is exactly one performRequest with the table's method and the caller's budget"},
+    {"id": "C17_R1_public", "theorem": "Iora.C17.R1_public", "kind": "proved",
+     "statement": "R1/R2 for the public API: post/postJson/postFile/postStream/postJsonAsync with any budget and script: all attempts but the last not sent, at most one reaches sendSync, at most budget+1 attempts"},
+    {"id": "C17_backoff", "theorem": "Iora.C17.Backoff_fits_int", "kind": "proved",
+     "statement": "the back-off delay (1 << min(attempt,16)) * 100 + jitter fits a 32-bit int for every attempt (repair FC17c; unclamped it overflows at attempt 25)"},
+    {"id": "C17_R6_waits", "theorem": "Iora.C17.R6_wait_budgets", "kind": "proved",
+     "statement": "time-out expression of every timed wait, from the source: lease = leaseAcquireTimeout, loopback connect = min(connectTimeout, 200), receive = requestTimeout, probe = 0"},
     {"id": "C17_R5", "theorem": "Iora.C17.R5_exact", "kind": "proved",
      "statement": "isIdempotentMethod = exact membership in {GET,HEAD,PUT,DELETE,OPTIONS,TRACE}"},
     {"id": "C17_R5_case", "theorem": "Iora.C17.R5_case_sensitive", "kind": "proved",
      "statement": "an idempotent token consists of upper-case ASCII letters only"},
     {"id": "C17_R5_table", "theorem": "Iora.C17.R5_table_and_defaults", "kind": "proved",
-     "statement": "the extracted table is the RFC 9110 table; every public entry point has default budget 0 and a literal method"},
+     "statement": "the extracted idempotent table is the RFC 9110 table; every public entry point has default budget 0"},
     {"id": "C17_R6_bound", "theorem": "Iora.C17.R6_receive_bound", "kind": "proved",
      "statement": "an attempt makes at most (#need-more answers)+1 receiveSync calls"},
     {"id": "C17_R6_silence", "theorem": "Iora.C17.R6_silence_ends_attempt", "kind": "proved",
@@ -70,7 +82,15 @@ HERE = os.path.dirname(os.path.dirname(os.path.abspath(__file__)))
 RFC_IDEMPOTENT = {"GET", "HEAD", "PUT", "DELETE", "OPTIONS", "TRACE"}
 METHODS_IDEM = ["GET", "HEAD", "PUT", "DELETE", "OPTIONS", "TRACE"]
 METHODS_NON = ["POST", "PATCH", "get", "Get", "post", "put", "delete", "FOO", "GETX", "GE", "PUTT", "LOCK", "hEAD", "Post", "TRACe", "OPTION"]
-REQUEST_TIMEOUT_MS = 400          # requestTimeout the harness configures (client-visible milliseconds)
+# three DISTINCT time-outs, requestTimeout the smallest, so that a wait with the wrong (or a scaled) time-out is recognisable
+REQUEST_TIMEOUT_MS = 120          # Config::requestTimeout the harness configures (client-visible milliseconds)
+CONNECT_TIMEOUT_MS = 2000         # Config::connectTimeout: connectSync to a loopback address waits min(2000, 200) = 200 ms. (Not below the cap:
+                                  # the engine applies connectTimeout itself, and two equal time-outs on one connect would race.)
+LEASE_TIMEOUT_MS = 250            # Config::leaseAcquireTimeout (0 in some streams: wait for ever)
+RESET = "reset %d %d %d %d %d"    # reuseConnections, response cap, lease, request, connect
+# the public API as documented (independent of the source and of the model): entry point -> HTTP method
+PY_ENTRY = {"get": "GET", "head": "HEAD", "post": "POST", "postJson": "POST", "postFile": "POST", "postStream": "POST",
+            "deleteRequest": "DELETE", "getAsync": "GET", "postJsonAsync": "POST"}
 FRAMING_CLASSES = "FPV"
 
 
@@ -254,7 +274,7 @@ def rand_close_delimited(rng, tag, method):
 
 def rand_fault(rng, cls, tag, method, seq, body_len, reuse_cfg):
     total, fields = request_fields(method, seq, body_len, reuse_cfg)
-    if cls in "LRBMES":
+    if cls in "LRBMESO":
         return tok_client(cls)
     if cls in "TC":
         on_request = rng.chance(1, 2)
@@ -285,6 +305,13 @@ def tok_cap(rng, tag, cap):
     return "P@" + conc(resp=hdr + b"p" * (cap + 1 - len(hdr) + rng.choice([0, 1, 50])), act="s")
 
 
+RESET1 = RESET % (1, 0, LEASE_TIMEOUT_MS, REQUEST_TIMEOUT_MS, CONNECT_TIMEOUT_MS)
+
+
+def call_op(entry, budget, url_kind, body_len, toks):
+    return "call %s %d %d %d %s" % (entry, budget, url_kind, body_len, " ".join(toks))
+
+
 def req_op(method, budget, url_kind, body_len, toks):
     return "req %s %d %d %d %s" % (hexs(method.encode("latin-1")), budget, url_kind, body_len, " ".join(toks))
 
@@ -305,7 +332,9 @@ def gen_random(rng, seq, n_cases):
     for ci in range(n_cases):
         reuse_cfg = not rng.chance(1, 8)
         cap = rng.choice([0, 0, 0, 3000])
-        ops = ["reset %d %d 50" % (1 if reuse_cfg else 0, cap)]
+        lease = rng.choice([LEASE_TIMEOUT_MS, LEASE_TIMEOUT_MS, 0])      # 0 = acquireLease waits without a time-out
+        classes = list("LRBMESOTTTCCCCFFV") if lease else list("RBMESOTTTCCCCFFV")
+        ops = [RESET % (1 if reuse_cfg else 0, cap, lease, REQUEST_TIMEOUT_MS, CONNECT_TIMEOUT_MS)]
         for ri in range(rng.choice([1, 2, 2, 3, 4, 6])):
             s = seq.next()
             method = rng.choice(METHODS_IDEM) if rng.chance(1, 2) else rng.choice(METHODS_NON)
@@ -324,11 +353,15 @@ def gen_random(rng, seq, n_cases):
                 elif roll < 44 and cap:
                     t = tok_cap(rng, tag, cap)
                 else:
-                    t = rand_fault(rng, rng.choice(list("LRBMESTTTCCCCFFV")), tag, method, s, body_len, reuse_cfg)
+                    t = rand_fault(rng, rng.choice(classes), tag, method, s, body_len, reuse_cfg)
                 if rng.chance(1, 25):
                     t = "I" + t
                 toks.append(t)
-            ops.append(req_op(method, budget, url_kind, body_len, toks))
+            entries = [e for e, mth in PY_ENTRY.items() if mth == method]
+            if entries and rng.chance(1, 2):
+                ops.append(call_op(rng.choice(entries), budget, url_kind, body_len, toks))     # through the public API
+            else:
+                ops.append(req_op(method, budget, url_kind, body_len, toks))
         cases.append({"cat": "sequence", "ops": ops})
     return cases
 
@@ -353,7 +386,7 @@ def gen_offsets(rng, seq, every_byte):
                     final = tok_ok(mk_resp(tag, method))
                     n_fault = max(budget, 0) + 1 if rng.chance(1, 3) else 1     # sometimes the fault persists over the whole budget
                     toks = [tok_req_fault(kind, k)] * n_fault + [final] * (max(budget, 0) + 2 - n_fault)
-                    cases.append({"cat": "offset-request", "ops": ["reset 1 0 50", req_op(method, budget, 0, body_len, toks)]})
+                    cases.append({"cat": "offset-request", "ops": [RESET1, req_op(method, budget, 0, body_len, toks)]})
             for mode in ("cl", "chunked"):
                 probe = mk_resp(b"o%d" % (seq.n + 1), method, mode=mode)
                 offs = list(range(len(probe.wire))) if every_byte else [o for o in probe.boundaries() if o < len(probe.wire)]
@@ -366,7 +399,7 @@ def gen_offsets(rng, seq, every_byte):
                         final = tok_ok(mk_resp(tag + b"z", method))
                         n_fault = max(budget, 0) + 1 if rng.chance(1, 3) else 1
                         toks = [tok_resp_fault(r, jj, act)] * n_fault + [final] * (max(budget, 0) + 2 - n_fault)
-                        cases.append({"cat": "offset-response", "ops": ["reset 1 0 50", req_op(method, budget, 0, body_len, toks)]})
+                        cases.append({"cat": "offset-response", "ops": [RESET1, req_op(method, budget, 0, body_len, toks)]})
     return cases
 
 
@@ -374,12 +407,12 @@ def gen_persistent(rng, seq):
     """the same fault on EVERY attempt (the script is longer than any budget allows): counts attempts for each class, each kind of
     method and each budget — pre-send faults included, which random scripts rarely repeat often enough"""
     cases = []
-    for cls in "RBMLESTCFV":
+    for cls in "RBMLESOTCFV":
         for method in ("GET", "POST", "PUT", "PATCH", "get"):
-            for budget in (0, 1, 2, 4):
+            for budget in (0, 1, 2, 4) + ((40,) if cls == "R" and method in ("GET", "POST") else ()):
                 s = seq.next()
                 tag = ("q%d" % s).encode()
-                if cls in "RBMLES":
+                if cls in "RBMLESO":
                     t = tok_client(cls)
                 elif cls == "T":
                     t = tok_req_fault("s", 25)
@@ -389,7 +422,10 @@ def gen_persistent(rng, seq):
                     t = "F@" + conc(resp=MALFORMED[1])
                 else:
                     t = rand_fault(rng, "V", tag, method, s, 0, True)
-                cases.append({"cat": "persistent", "ops": ["reset 1 0 50", req_op(method, budget, 0, 0, [t] * (budget + 3))]})
+                entries = [e for e, mth in PY_ENTRY.items() if mth == method]
+                op = call_op(rng.choice(entries), budget, 0, 0, [t] * (budget + 3)) if entries and rng.chance(1, 2) else \
+                    req_op(method, budget, 0, 0, [t] * (budget + 3))
+                cases.append({"cat": "persistent", "ops": [RESET1, op]})
     return cases
 
 
@@ -429,9 +465,9 @@ def gen_read_boundary(rng, seq, thorough):
                     if placement == "later":
                         # the client stays idle until the late write has arrived; a request issued at once would race with it,
                         # and bytes that arrive after a request was sent are that request's response by definition
-                        cases.append({"cat": "late-surplus", "ops": ["reset 1 0 50", first, "pause 15", second]})
+                        cases.append({"cat": "late-surplus", "ops": [RESET1, first, "pause 15", second]})
                     else:
-                        cases.append({"cat": "read-boundary", "ops": ["reset 1 0 50", first, second]})
+                        cases.append({"cat": "read-boundary", "ops": [RESET1, first, second]})
         # close-delimited bodies ending on the boundary (never reusable; the boundary must not change that)
         for delta in (-1, 0, 1):
             seq.next()
@@ -440,7 +476,7 @@ def gen_read_boundary(rng, seq, thorough):
             t = "D:%s@%s" % (r.sem(), conc(resp=r.wire, j=len(r.wire), act="f", xbody=r.body))
             seq.next()
             follow = tok_ok(mk_resp(tag + b"n", "GET"))
-            cases.append({"cat": "read-boundary", "ops": ["reset 1 0 50", req_op("GET", 0, 0, 0, [t, follow]), req_op("GET", 0, 0, 0, [follow, follow])]})
+            cases.append({"cat": "read-boundary", "ops": [RESET1, req_op("GET", 0, 0, 0, [t, follow]), req_op("GET", 0, 0, 0, [follow, follow])]})
     return cases
 
 
@@ -463,11 +499,80 @@ def gen_repeated_connection(rng, seq):
             t = "K:200,%s,%s,0:1@%s" % (hexs(combined), hexs(version), conc(resp=wire, xbody=body))
             seq.next()
             follow = tok_ok(mk_resp(tag + b"n", "GET"))
-            cases.append({"cat": "repeated-connection", "ops": ["reset 1 0 50", req_op("GET", 0, 0, 0, [t, follow]), req_op("GET", 0, 0, 0, [follow, follow])]})
+            cases.append({"cat": "repeated-connection", "ops": [RESET1, req_op("GET", 0, 0, 0, [t, follow]), req_op("GET", 0, 0, 0, [follow, follow])]})
     return cases
 
 
-FC17B_KEY = "http-client:repeated-connection-field-lines"
+def gen_public_api(rng, seq):
+    """Every public entry point under every kind of fault: the entry point must behave as ONE performRequest with its documented
+    method and the caller's budget (a wrapper that re-issues the request, adds to the budget or swallows an error shows here)."""
+    cases = []
+    for entry, method in PY_ENTRY.items():
+        for cls in "RMESOTCFK":
+            for budget in (0, 2):
+                s = seq.next()
+                tag = ("u%d" % s).encode()
+                if cls == "K":
+                    first = rand_ok(rng, tag, method)
+                elif cls in "RMESO":
+                    first = tok_client(cls)
+                elif cls == "T":
+                    first = tok_req_fault("s", rng.choice([0, 30, 10 ** 6]))
+                elif cls == "C":
+                    first = rng.choice([tok_req_fault("r", rng.choice([0, 40, 10 ** 6])), tok_resp_fault(mk_resp(tag, method, mode="cl"), 12, "f")])
+                else:
+                    first = "F@" + conc(resp=rng.choice(MALFORMED))
+                second = rng.choice([first, rand_ok(rng, tag + b"b", method)])
+                rest = [rand_ok(rng, tag + b"c", method), tok_ok(mk_resp(tag + b"d", method, mode="nobody" if method == "HEAD" else "cl"))]
+                cases.append({"cat": "public-api", "ops": [RESET1, call_op(entry, budget, 0, rng.choice([0, 7]), [first, second] + rest)]})
+    return cases
+
+
+def gen_stale_and_scheme(rng, seq):
+    """(a) the server closes (FIN) or resets a kept-alive connection while the client is idle, then the next request goes out:
+    the commonest real fault. The request is handed to sendSync on the dead session, so a non-idempotent one fails WITHOUT a retry
+    (nothing reached the wire, but the client cannot know) and an idempotent one is retried on a new connection.
+    (b) https:// to a host:port whose cached connection is plain (FC07a): the entry is closed and evicted, the TLS handshake with
+    this plain server never completes (connect time-out = not sent)."""
+    cases = []
+    for how in "fr":
+        for method, budget in (("POST", 2), ("PATCH", 0), ("GET", 2), ("PUT", 1), ("post", 3), ("DELETE", 0)):
+            s0 = seq.next(); s1 = seq.next(); s2 = seq.next()
+            tag = ("z%d" % s1).encode()
+            warm = tok_ok(mk_resp(tag + b"w", "GET"))
+            oks = [tok_ok(mk_resp(tag + b"%d" % i, method)) for i in range(budget + 2)]
+            entries = [e for e, mth in PY_ENTRY.items() if mth == method]
+            second = call_op(rng.choice(entries), budget, 0, 0, ["C@" + conc()] + oks) if entries and rng.chance(1, 2) else \
+                req_op(method, budget, 0, 0, ["C@" + conc()] + oks)
+            cases.append({"cat": "stale-connection", "ops": [RESET1, req_op("GET", 0, 0, 0, [warm, warm]), "srvclose " + how, second,
+                                                             req_op("GET", 0, 0, 0, [warm, warm])]})
+    for method, budget in (("GET", 0), ("GET", 2), ("POST", 1)):
+        for warm_first in (True, False):
+            s0 = seq.next(); s1 = seq.next(); s2 = seq.next()
+            tag = ("h%d" % s1).encode()
+            warm = tok_ok(mk_resp(tag + b"w", "GET"))
+            ops = [RESET1]
+            if warm_first:
+                ops.append(req_op("GET", 0, 0, 0, [warm, warm]))
+            ops.append(req_op(method, budget, 2, 0, ["H@" + conc()] * (budget + 3)))      # https
+            ops.append(req_op("GET", 0, 0, 0, [warm, warm]))
+            cases.append({"cat": "scheme", "ops": ops})
+    return cases
+
+
+def gen_fin_after_response(rng, seq, n):
+    """a complete keep-alive response followed at once by FIN: the residual-data probe sees the close (evict) unless the FIN is
+    processed after the decision (kept, and the next request meets a stale connection). Both are fine: monitors only."""
+    cases = []
+    for i in range(n):
+        s0 = seq.next(); s1 = seq.next()
+        tag = ("f%d" % s0).encode()
+        method = rng.choice(["GET", "POST", "PUT"])
+        r = mk_resp(tag, method, mode=rng.choice(["cl", "chunked"]))
+        t = "K:%s:1@%s" % (r.sem(), conc(resp=r.wire, act="f", cut=rng.choice([0, len(r.wire) - 1]), xbody=r.body))
+        ok = tok_ok(mk_resp(tag + b"n", "GET"))
+        cases.append({"cat": "fin-after-response", "ops": [RESET1, req_op(method, 0, 0, 0, [t, ok]), "pause 5", req_op("GET", 2, 0, 0, [ok] * 4)]})
+    return cases
 
 
 def gen_racy(rng, seq, n):
@@ -481,13 +586,13 @@ def gen_racy(rng, seq, n):
         budget = rng.choice([0, 1, 2, 3])
         tag = ("y%d" % s).encode()
         toks = [tok_req_fault("a", 0)] * rng.range(1, budget + 1) + [tok_ok(mk_resp(tag, method))] * (budget + 2)
-        cases.append({"cat": "racy", "ops": ["reset 1 0 50", req_op(method, budget, 0, 5 if method not in ("GET",) else 0, toks[:budget + 2])]})
+        cases.append({"cat": "racy", "ops": [RESET1, req_op(method, budget, 0, 5 if method not in ("GET",) else 0, toks[:budget + 2])]})
     return cases
 
 
 def gen_realtime(rng, seq, n):
     """a few silent peers with REAL time-outs (virtual clock off): the attempt must end within a small multiple of requestTimeout"""
-    ops = ["reset 1 0 50", "vclock 0"]
+    ops = [RESET1, "vclock 0"]
     for i in range(n):
         s = seq.next()
         method = rng.choice(["POST", "GET"])
@@ -528,7 +633,7 @@ def gen_par(rng, n_cases):
     cases = []
     for ci in range(n_cases):
         reuse_cfg = not rng.chance(1, 6)
-        ops = ["reset %d 0 0" % (1 if reuse_cfg else 0)]
+        ops = [RESET % (1 if reuse_cfg else 0, 0, 0, REQUEST_TIMEOUT_MS, CONNECT_TIMEOUT_MS)]
         if rng.chance(1, 2):    # warm up: something may already be cached
             m = rng.choice(["GET", "POST"])
             ops.append(req_op(m, 0, rng.choice([0, 0, 1]), 0, [rand_ok(rng, ("w%d" % ci).encode(), m), tok_ok(mk_resp(b"wz", m))]))
@@ -735,7 +840,9 @@ class Tok:
 
 def parse_req(op):
     t = op.split()
-    return {"method": unhex(t[1]).decode("latin-1"), "budget": int(t[2]), "url_kind": int(t[3]), "toks": [Tok(x) for x in t[5:]]}
+    entry = t[1] if t[0] == "call" else None
+    method = PY_ENTRY.get(entry, "?") if entry else unhex(t[1]).decode("latin-1")
+    return {"method": method, "entry": entry, "budget": int(t[2]), "url_kind": int(t[3]), "toks": [Tok(x) for x in t[5:]]}
 
 
 def monitor_case(c, impl, consts):
@@ -748,20 +855,25 @@ def monitor_case(c, impl, consts):
         return bad
     closed = set()
     tainted = {}          # server-side connection number -> why no later request may arrive on it
-    judged_by_monitors_only = c["cat"] in ("racy", "late-surplus")
+    judged_by_monitors_only = c["cat"] in MONITORS_ONLY
+    t_lease, t_request, t_connect = LEASE_TIMEOUT_MS, REQUEST_TIMEOUT_MS, CONNECT_TIMEOUT_MS
     reuse_cfg = True
     realtime = False
     for op, l in zip(c["ops"], impl):
         if op.startswith("reset "):
-            reuse_cfg = op.split()[1] == "1"
+            rt = op.split()
+            reuse_cfg = rt[1] == "1"
+            t_lease, t_request, t_connect = int(rt[3]), int(rt[4]), min(int(rt[5]), consts["localConnectCapMs"])
             closed = set()
             tainted = {}
             continue
         if op.startswith("vclock "):
             realtime = op.split()[1] == "0"
             continue
-        if not op.startswith("req "):
+        if not (op.startswith("req ") or op.startswith("call ")):
             continue
+        if l.startswith("skip:"):
+            return bad        # the harness could not inject a fault of this case on this machine (evidence: `skipped`)
         if l.startswith("crash:") or l.startswith("throw") or l == "bad-op":
             bad.append("R6: the request did not end with a value or an error: %s -> %s" % (op[:100], l))
             continue
@@ -818,7 +930,7 @@ def monitor_case(c, impl, consts):
             elif last.cls == "D" or py_close_signalled(last.conn, last.version):
                 tainted[srv[-1][0]] = "carried a response that signalled close"
         # (L leaves the cache alone; R/B only bite when a connection has to be opened, which the monitor does not track)
-        if last is not None and m["url_kind"] != 9 and last.cls not in "LRB" and not judged_by_monitors_only and not last.reusable(reuse_cfg):
+        if last is not None and m["url_kind"] != 9 and last.cls not in "LRBH" and not judged_by_monitors_only and not last.reusable(reuse_cfg):
             if "h%d" % host in cached_hosts:
                 bad.append("R4: a connection stays cached after an exchange that forbids reuse (class %s, %s)" % (last.cls, last.sem[:60]))
         if f.get("leased") != "0":
@@ -826,24 +938,48 @@ def monitor_case(c, impl, consts):
         # R6 (measured part): with REAL time-outs a silent peer ends the request within a small multiple of the configured timeout.
         # (`avms`, the per-attempt client time under the virtual clock, is reported but not judged: the clock is pushed by a helper
         # thread while the peer is silent, so on a busy machine it overshoots; `maxwait`/`tow` below are the load-independent form.)
-        if realtime and int(f.get("rms", "0")) > 10 * REQUEST_TIMEOUT_MS * max(att, 1):
-            bad.append("R6: %d attempt(s) took %s ms of real time with requestTimeout %d ms" % (att, f.get("rms"), REQUEST_TIMEOUT_MS))
-        # R6 (deterministic part): no single wait is longer than the configured time-outs, and a wait that timed out is not repeated
-        limit = max(REQUEST_TIMEOUT_MS, consts["localConnectCapMs"], 50)
-        if int(f.get("maxwait", "0")) > limit + 1:
-            bad.append("R6: the requesting thread asked for a %s ms wait; configured: requestTimeout %d ms, connect %d ms, lease 50 ms" % (f.get("maxwait"), REQUEST_TIMEOUT_MS, consts["localConnectCapMs"]))
-        silent = sum(1 for a in script[:att] if a.cls in "TLB")
-        if int(f.get("tow", "0")) > silent and c["cat"] != "racy":
-            bad.append("R6: %s waits ended by time-out but the peer was silent in only %d attempt(s): the client waited for something that could not come (or waited again after a time-out)" % (f.get("tow"), silent))
+        if realtime and int(f.get("rms", "0")) > 10 * t_request * max(att, 1):
+            bad.append("R6: %d attempt(s) took %s ms of real time with requestTimeout %d ms" % (att, f.get("rms"), t_request))
+        # R6 (deterministic part), per attempt and per kind of wait: every timed wait the requesting thread asks for has one of the
+        # configured lengths (lease / connect / request, 0 = probe); the wait that ends an attempt by time-out is the one that belongs to
+        # the attempt's fault (lease held -> leaseAcquireTimeout, connect that never completes -> connect time-out, silent peer ->
+        # requestTimeout); no other attempt ends by a time-out
+        allowed = {0, t_request, t_connect} | ({t_lease} if t_lease else set())
+        aw = [[int(x) for x in a.split(":") if x not in ("-", "")] for a in f.get("aw", "-").split(",")] if f.get("aw", "-") != "-" else []
+        for i, ws in enumerate(aw[:att]):
+            for w in ws:
+                if not any(abs(w - x) <= 1 for x in allowed):
+                    bad.append("R6: attempt %d asked for a %d ms wait; configured are lease %d, connect %d, request %d ms" % (i, w, t_lease, t_connect, t_request))
+        tw = f.get("tw", "-").split(",")
+        if int(f.get("stall", "0")) == 0 and not judged_by_monitors_only:
+            for i, a in enumerate(script[:att]):
+                got = tw[i] if i < len(tw) else "-"
+                want = {"L": t_lease, "B": t_connect, "H": t_connect, "T": t_request}.get(a.cls)
+                if m["url_kind"] == 9:
+                    want = None
+                if want is None and got != "-":
+                    bad.append("R6: attempt %d (class %s, the peer is not silent) ended a %s ms wait by time-out" % (i, a.cls, got))
+                elif want is not None and got != "-" and abs(int(got) - want) > 1:
+                    bad.append("R6: attempt %d (class %s) timed out after a %s ms wait; the time-out configured for that wait is %d ms" % (i, a.cls, got, want))
+                elif want is not None and got == "-" and a.cls in "LT":
+                    bad.append("R6: attempt %d (class %s: nothing can arrive) did not end by a time-out" % (i, a.cls))
+        # (`tow`, the number of timed waits that ran into their deadline, is reported but not judged: a wait whose deadline passes at the
+        # very moment data arrives counts there although the caller never saw a time-out; `tw` above is per attempt and exact)
+        if int(f.get("stall", "0")) > 0 and not judged_by_monitors_only:
+            bad.append("harness: the requesting thread made no progress for 1 s of real time although the scripted peer was not silent (stall=%s)" % f.get("stall"))
         # a response is attributed to the request it answers
-        if f["res"].startswith("ok:") and last is not None and last.xbody is not None and c["cat"] != "racy":
+        if f["res"].startswith("ok:") and last is not None and last.xbody is not None and c["cat"] != "racy" and m["entry"] != "postStream":
             if f.get("body") != last.xbody:
                 bad.append("R4: the response body handed to the caller is not the one sent for this request: got %s want %s" % (f.get("body", "")[:60], last.xbody[:60]))
         # back-off constants
         sl = [int(x) for x in f.get("sleeps", "-").split(",") if x not in ("-", "")]
         for k, v in enumerate(sl):
-            lo = (1 << k) * consts["backoffBaseMs"] + consts["jitterLo"]
-            hi = (1 << k) * consts["backoffBaseMs"] + consts["jitterHi"]
+            e = min(k, consts["backoffShiftCap"]) if consts["backoffShiftCap"] else k
+            lo = (1 << e) * consts["backoffBaseMs"] + consts["jitterLo"]
+            hi = (1 << e) * consts["backoffBaseMs"] + consts["jitterHi"]
+            if hi >= 2 ** 31:
+                bad.append("backoff: the delay before retry %d does not fit the `int` it is computed in (%d ms): undefined behaviour" % (k + 1, hi))
+                break
             if not (lo <= v <= hi):
                 bad.append("backoff: sleep %d before retry %d outside [%d, %d]" % (v, k + 1, lo, hi))
         if f.get("quiesce") == "FAILED":
@@ -853,7 +989,7 @@ def monitor_case(c, impl, consts):
 
 def gen_consts():
     p = os.path.join(os.environ.get("VERIF_LEAN", os.path.join(HERE, "lean")), "IoraModel", "Gen", "HttpRetry.lean")
-    out = {"backoffBaseMs": 100, "jitterLo": 0, "jitterHi": 99, "localConnectCapMs": 200}
+    out = {"backoffBaseMs": 100, "jitterLo": 0, "jitterHi": 99, "localConnectCapMs": 200, "backoffShiftCap": 0, "recvBufferSize": 8192}
     try:
         t = open(p).read()
         for k in out:
@@ -863,6 +999,9 @@ def gen_consts():
     except OSError:
         pass
     return out
+
+
+MONITORS_ONLY = ("racy", "late-surplus", "fin-after-response")
 
 
 def compared(line):
@@ -883,6 +1022,7 @@ def run(ctx: Ctx):
     hb = ctx.build_harness("harness/c17_httpretry.cpp", sanitize=True, opt="-O0")
     dist = {}
     consts = gen_consts()
+    globals()["READ_CHUNK"] = consts["recvBufferSize"]
     have_model = False
     try:
         ctx.model_argv("httpretry")
@@ -897,21 +1037,24 @@ def run(ctx: Ctx):
             seq = Seq()
             cases = load_corpus()
             for c in cases:
-                seq.n += sum(1 for o in c["ops"] if o.startswith("req "))
+                seq.n += sum(1 for o in c["ops"] if o.startswith("req ") or o.startswith("call "))
             cases += gen_pure(rng.fork("pure"), 60 if quick else 600)
             cases += gen_random(rng.fork("seq"), seq, 350 if quick else 9000)
             cases += gen_offsets(rng.fork("off"), seq, every_byte=not quick)
             cases += gen_persistent(rng.fork("pers"), seq)
             cases += gen_read_boundary(rng.fork("rb"), seq, not quick)
             cases += gen_repeated_connection(rng.fork("rc"), seq)
+            cases += gen_public_api(rng.fork("api"), seq)
+            cases += gen_stale_and_scheme(rng.fork("stale"), seq)
+            cases += gen_fin_after_response(rng.fork("fin"), seq, 12 if quick else 120)
             cases += gen_racy(rng.fork("racy"), seq, 40 if quick else 600)
             cases += gen_realtime(rng.fork("rt"), seq, 4 if quick else 12)
         n_mismatch = 0
         exchanges = 0
-        fc17b_listed = any(k.get("kind") == "finding" and k.get("property") == ID and k.get("id") == "FC17b" and k.get("key") == FC17B_KEY
-                           for k in load_known_findings())
-        fc17b_hits = 0
         late_surplus = {"reused": 0, "fresh": 0}
+        fin_after = {"evicted": 0, "kept": 0}
+        unreproduced = []
+        skipped = {}
         interposers = {}
         stopped_early = False
         # small first chunks: a tree that breaks the property can make every exchange slow (unexpected time-outs), and the
@@ -936,6 +1079,8 @@ def run(ctx: Ctx):
                 fails = monitor_case(c, impl, consts)
                 if c["cat"] == "late-surplus" and impl and impl[-1].startswith("ev="):
                     late_surplus["reused" if impl[-1].startswith("ev=s") else "fresh"] += 1
+                if c["cat"] == "fin-after-response" and len(impl) > 1 and impl[1].startswith("ev="):
+                    fin_after["kept" if "cache=h" in impl[1] else "evicted"] += 1
                 for op, l in zip(c["ops"], impl):
                     if l.startswith("ev="):
                         n = int(fields_of(l).get("att", "0"))
@@ -945,12 +1090,25 @@ def run(ctx: Ctx):
                             dist[k] = dist.get(k, 0) + 1
                         k = "res:" + fields_of(l).get("res", "?")
                         dist[k] = dist.get(k, 0) + 1
-                mism = [] if c["cat"] in ("racy", "late-surplus") else [(i, a, b) for i, (a, b) in enumerate(zip(impl, model)) if compared(a) != b]
+                mism = [] if c["cat"] in MONITORS_ONLY or any(l.startswith("skip:") for l in impl) else [(i, a, b) for i, (a, b) in enumerate(zip(impl, model)) if compared(a) != b]
                 if len(ctx.cov["samples"]) < 6 and c["cat"] in ("sequence", "offset-request", "offset-response", "persistent") and rng.chance(1, 60):
                     ctx.sample({"ops": [o[:220] for o in c["ops"][:3]], "impl": [l[:260] for l in impl[:3]]})
-                if c["cat"] == "repeated-connection" and (fails or mism) and fc17b_listed:
-                    # DESIGN §5.3: a listed finding whose witness still reproduces is reported once and is not a violation
-                    fc17b_hits += 1
+                if (fails or mism) and have_model and c["cat"] != "stats":
+                    # Before anything is reported the case is run again ALONE (fresh harness and model processes): the harness uses real
+                    # sockets and threads, and on a busy machine a stall or a late accept can look like a wrong outcome. What does not
+                    # reproduce is counted (`unreproduced`), not reported; a harness-side failure that persists is machinery, not a verdict.
+                    (c2, impl2, model2), = ctx.lockstep("httpretry", hb, [dict(c)], timeout=600)
+                    fails2 = monitor_case(c2, impl2, consts)
+                    mism2 = [] if c["cat"] in MONITORS_ONLY else [(i, a, b) for i, (a, b) in enumerate(zip(impl2, model2)) if compared(a) != b]
+                    if not fails2 and not mism2:
+                        unreproduced.append({"cat": c["cat"], "first_run": (fails or ["model mismatch"])[0][:160]})
+                        continue
+                    impl, model, fails, mism = impl2, model2, fails2, mism2
+                    if fails and all(x.startswith("harness:") for x in fails):
+                        raise RuntimeError("machinery: %s (twice, also when run alone)" % fails[0])
+                    fails = [x for x in fails if not x.startswith("harness:")] or fails
+                if any(l.startswith("skip:") for l in impl):
+                    skipped[impl[[l.startswith("skip:") for l in impl].index(True)]] = skipped.get(impl[[l.startswith("skip:") for l in impl].index(True)], 0) + 1
                     continue
                 if fails:
                     report_property(ctx, hb, c, impl, model, fails, consts)
@@ -969,10 +1127,9 @@ def run(ctx: Ctx):
                 stopped_early = True
                 ctx.notes.append("stopped after %d of %d cases: %d property violations, %d correspondence mismatches" % (hi, len(cases), n_prop, n_mismatch))
                 break
-        if fc17b_hits:
-            ctx.known_lines.append("KNOWN-FINDING: property=C17 id=FC17b `Connection: close` on one field line is hidden by a later `Connection:` line "
-                                   "(parseHeaderBlock keeps the last line only): the connection is kept and reused (%d witness cases)" % fc17b_hits)
-        ctx.extra["known_finding_cases"] = {"FC17b": fc17b_hits}
+        ctx.extra["fin_after_complete_response"] = fin_after
+        ctx.extra["unreproduced_when_run_alone"] = unreproduced
+        ctx.extra["skipped"] = skipped
         ctx.extra["late_surplus_after_idle"] = late_surplus
         ctx.extra["interposers"] = interposers
         ctx.extra["stopped_early"] = stopped_early
@@ -982,11 +1139,13 @@ def run(ctx: Ctx):
     ctx.extra["input_distribution"] = dist
     ctx.extra["repo_tree_sha"] = ctx.repo_tree_sha(ANCHOR_FILES)
     ctx.extra["not_proved"] = [
-        "R6 wall-clock part (each attempt ends within its configured timeout): measured, not a theorem — no timed wait the requesting thread asks for exceeds the configured time-outs, no wait is repeated after a time-out, and a few silent-peer cases run with REAL time-outs",
+        "R6 wall-clock part (each attempt ends within its configured timeout): the time-out EXPRESSION of every timed wait is extracted and proved to be the configured one (R6_wait_budgets); that the wait then lasts no longer is Transport/condition-variable behaviour (C03/C04) — measured: every timed wait the requesting thread asks for has a configured length, the wait that ends an attempt is the one of its fault class, none is repeated, and a few silent-peer cases run with REAL time-outs",
         "the condition-variable hand-off inside acquireLease/releaseLease (no lost wake-up) is not modelled: blocking is 'enabled iff the host is free'; that the erase is under _mutex and the notify is notify_all is a translator check, and concurrent runs would hang into the harness watchdog",
     ]
     ctx.assumptions += [
         "what frameResponse does with the received bytes is C15's model; here its outcome per receive iteration (need-more / complete(info) / malformed / cap) is an input class",
+        "between the pre-send region and the receive loop executeRequest only assembles the request text and calls sendSync (translator skeleton check); what could still escape there without evicting the connection — std::bad_alloc while building the string, std::logic_error from sendSync on the client's own I/O thread (which runs no user code: HttpClient installs no callback) — is outside the model",
+        "`recvResult.isOk() && len == 0` takes no branch of the receive chain; it cannot occur: Transport::receiveSync reports success only from `if (!buf->data.empty())` with min(len, size) >= 1 bytes (translator fact receiveOkHasBytes, transport_impl.hpp) and executeRequest passes len = 8192 / 1",
         "Transport::receiveSync returns within the timeout it is given and reports Timeout/PeerClosed/BufferOverflow/ShuttingDown as documented (C03/C04)",
         "the engine hands out strictly increasing session ids (TcpEngine::_nextSessionId); the harness numbers sessions by creation order",
         "RST at accept races with connectSync's completion; those cases are judged by the monitors only (category `racy`)",
